@@ -1,7 +1,98 @@
 // harness commands owned by property C12
 #![allow(unused_imports, dead_code)]
+use std::io::Write;
+use std::sync::mpsc;
+use std::time::{Duration, Instant};
+
 use serde_json::{json, Value};
 
-pub fn dispatch(_cmd: &str, _req: &Value) -> Option<Value> {
-    None
+fn run_entry(req: &Value) -> Value {
+    let entry = crate::s(req, "entry").to_string();
+    let src = crate::s(req, "src");
+    match entry.as_str() {
+        "tokens" => match prqlc::prql_to_tokens(src) {
+            Ok(t) => json!({"ok": t.0.len()}),
+            Err(e) => crate::errs(e),
+        },
+        "pl" => match prqlc::prql_to_pl(src) {
+            Ok(_) => json!({"ok": true}),
+            Err(e) => crate::errs(e),
+        },
+        "fmt" => match prqlc::prql_to_pl(src) {
+            Ok(pl) => match prqlc::pl_to_prql(&pl) {
+                Ok(t) => json!({ "ok": t.len() }),
+                Err(e) => json!({"fmt_err": crate::errs(e)}),
+            },
+            Err(e) => crate::errs(e),
+        },
+        "rq" => match prqlc::prql_to_pl(src).and_then(prqlc::pl_to_rq) {
+            Ok(_) => json!({"ok": true}),
+            Err(e) => crate::errs(e),
+        },
+        "compile" => crate::cmd_compile(req),
+        // PL from JSON: resolve + lower, and format
+        "json_pl" => match prqlc::json::to_pl(src) {
+            Ok(pl) => {
+                let r = match prqlc::pl_to_rq(pl.clone()) {
+                    Ok(_) => json!({"ok": true}),
+                    Err(e) => crate::errs(e),
+                };
+                if req.get("no_fmt").and_then(|v| v.as_bool()) != Some(true) {
+                    let _ = prqlc::pl_to_prql(&pl);
+                }
+                r
+            }
+            Err(e) => crate::errs(e),
+        },
+        // RQ from JSON: SQL generation
+        "json_rq" => match prqlc::json::to_rq(src) {
+            Ok(rq) => match crate::options(req) {
+                Ok(o) => match prqlc::rq_to_sql(rq, &o) {
+                    Ok(sql) => json!({ "ok": sql }),
+                    Err(e) => crate::errs(e),
+                },
+                Err(v) => v,
+            },
+            Err(e) => crate::errs(e),
+        },
+        _ => json!({"bad_entry": entry}),
+    }
+}
+
+// c12probe {entry, src, stack_mb?, target?, cap_ms?}
+//   one public entry point on one input, under catch_unwind, in a thread with a fixed stack, timed.
+//   answer {"r": .., "ms": n}.  When the thread does not answer within cap_ms the line {"hang": cap_ms}
+//   is written and the PROCESS EXITS (a spinning thread cannot be cancelled): the driver sees a short
+//   answer list and continues with the remaining requests in a new process, exactly as after an abort.
+fn cmd_c12probe(req: &Value) -> Value {
+    let reqc = req.clone();
+    let stack = req.get("stack_mb").and_then(|v| v.as_u64()).unwrap_or(64) as usize * 1024 * 1024;
+    let cap = req.get("cap_ms").and_then(|v| v.as_u64()).unwrap_or(20000);
+    let (tx, rx) = mpsc::channel();
+    let h = std::thread::Builder::new().stack_size(stack).spawn(move || {
+        let t0 = Instant::now();
+        let v = crate::guarded(|| run_entry(&reqc));
+        let _ = tx.send(json!({"r": v, "ms": t0.elapsed().as_millis() as u64}));
+    });
+    match h {
+        Err(e) => json!({"spawn_err": e.to_string()}),
+        Ok(_h) => match rx.recv_timeout(Duration::from_millis(cap)) {
+            Ok(v) => v,
+            Err(mpsc::RecvTimeoutError::Timeout) => {
+                let so = std::io::stdout();
+                let mut l = so.lock();
+                let _ = writeln!(l, "{}", json!({"hang": cap}));
+                let _ = l.flush();
+                std::process::exit(3);
+            }
+            Err(mpsc::RecvTimeoutError::Disconnected) => json!({"panic": {"msg": "probe thread died", "loc": ""}}),
+        },
+    }
+}
+
+pub fn dispatch(cmd: &str, req: &Value) -> Option<Value> {
+    match cmd {
+        "c12probe" => Some(cmd_c12probe(req)),
+        _ => None,
+    }
 }
